@@ -156,33 +156,38 @@ def _run_main(ctx):
 
     with ctx.rule('R08.6', "EOF behind the server's CloseOk is the normal end of a client-initiated close", floor=2) as r:
         fnp = 'io_loop::IoLoop::handle_steady_event'
-        fn = ctx.fn(fnp)
-        calls = H.ancestors(fn['hir'], lambda n: n.get('k') == 'MethodCall' and n['name'] == 'read_from_stream')
-        if not r.check('read-site', len(calls) == 1, ctx.site(fnp)):
+        rows = P.table(ctx, fnp, ['self', 'stream', 'state', 'event'])
+        site = ctx.site(fnp)
+        RF = 'io_loop::Inner::read_from_stream('
+        reads = [x for x in rows if any(e.startswith(RF) for e in x.effects)]
+        if not r.check('read-site', len(reads) >= 1, site):
             return
-        chain, call = calls[0]
-        parent = chain[-1][0]
-        bare_try = parent.get('k') == 'Try'
-        ok = False
-        detail = None
-        if not bare_try:
-            # result bound and matched: an arm Err(UnexpectedSocketClose) guarded by state ClientClosed evaluates to ()
-            for n in H.walk(fn['hir']):
-                if n.get('k') == 'Match' and n.get('src') == 'Normal':
-                    for a in n['arms']:
-                        pt = H.pat_term(a['pat'], True)
-                        if pt == 'Err(errors::Error::UnexpectedSocketClose)' and a.get('guard') is not None:
-                            g = H.term(a['guard'])
-                            body = H.term(a['body'])
-                            detail = (pt, g, body)
-                            if g == 'match state {io_loop::connection_state::ConnectionState::ClientClosed => true; _ => false}' and body in ('{}', '()'):
-                                ok = True
-        r.check('eof-after-clientclosed-is-ok', ok, ctx.site(fnp, call), built=detail or ('bare `?`' if bare_try else None),
-                expected='Err(UnexpectedSocketClose) if state is ClientClosed => ()',
+        subj = sorted(set(c[0] for x in reads for c in x.conds if isinstance(c[0], str) and c[0].startswith(RF) and not c[0].endswith('.Err.0')))
+        if not subj:
+            # the result is `?`-propagated as it stands: nothing is swallowed (the property's clause then does not hold: EOF after CloseOk is an error)
+            r.bad('eof-after-clientclosed-is-ok', site, built='bare `?`', expected='Err(UnexpectedSocketClose) in state ClientClosed => ()')
+            return
+        rf = subj[0]
+        USC = (rf + '.Err.0', 'errors::Error::UnexpectedSocketClose')
+        CLOSED = ('state', 'io_loop::connection_state::ConnectionState::ClientClosed')
+        failing = [x for x in reads if (rf, 'Err(_)') in x.conds]
+        swallowed = [x for x in failing if x.done != 'return']
+        passed_on = [x for x in failing if x.done == 'return']
+        r.check('eof-after-clientclosed-is-ok', swallowed and all(USC in x.conds and CLOSED in x.conds and x.value_str() == 'Ok(())' for x in swallowed), site,
+                built=[x.cond_strs()[-3:] for x in swallowed], expected='the read error is swallowed exactly on: Err(UnexpectedSocketClose) while state is ClientClosed',
                 why='the read loop keeps reading after the CloseOk frame; a server that closes the socket right behind it must not turn close() into an error')
-        # any other outcome is still propagated
-        others = [n for n in H.walk(fn['hir']) if n.get('k') == 'Try' and H.peel(n['e']).get('k') == 'Local' and H.peel(n['e'])['name'] == 'other']
-        r.check('other-results-propagated', bare_try or len(others) == 1, ctx.site(fnp, call), why='every other read result must still end the loop with its error')
+        # every other failing outcome still ends the loop with the error itself; together the failing paths cover every case
+        tails = []
+        for x in failing:
+            cs = list(x.conds)
+            tails.append([c for c in cs[cs.index((rf, 'Err(_)')) + 1:] if c[0] in (rf + '.Err.0', 'state')])
+        # one group per way of reaching the read (writable or not): each must be complete
+        groups = {}
+        for x, t in zip(failing, tails):
+            groups.setdefault(tuple(x.conds[:list(x.conds).index((rf, 'Err(_)'))]), []).append(t)
+        r.check('other-results-propagated', passed_on and all(x.value_str() == 'Err(%s.Err.0)' % rf for x in passed_on) and all(A.covers_all(g) for g in groups.values()), site,
+                built=[(x.cond_strs()[-3:], x.value_str()[:60], x.done) for x in failing], expected='every other read error => return Err(that error)',
+                why='every other read result must still end the loop with its error')
 
 
 def _shared_r4(ctx):
